@@ -4,7 +4,7 @@ Import ListNotations.
 From PF Require Import Opcodes Config Sim Lex Entropy Mutators Gen Front.
 From PF.proofs Require Import FrontP.
 From PF.gen Require SrcConsts.
-Require Import PF.SrcEquiv.
+Require Import PF.SrcEqFront.
 Local Open Scope N_scope.
 
 (* Front.v models the front ends as option -> configuration mappings; the bytes are then those of
